@@ -18,14 +18,14 @@ func init() {
 		Builds:   []string{"default", "386"}, // the 386 build runs 1/12 of the random classes on a 32-bit target
 		Scale386: 12,
 		Parallel: 4, // cases are judged on 4 goroutines per shard: the library functions are stateless, shared state inside them shows up as wrong verdicts
-		Rule: "(public key, message, signature) triples in classes: honest (crypto/ed25519 signatures, message length 0..2500 and around 2^9..2^13), bitflip (1-2 flipped bits), s_plus_jL (S+jL for every j with S+jL < 2^256), torsion (A=[s]B+T, R=[r]B+T' for all 8x8 torsion pairs, S=r+k*s with k over the bytes as given, and the same with S perturbed), smallorder (every encoding of every small-order point incl. non-canonical ones as A and as R, with S=0, S=k*s, S=jL, S=1), noncanonical_y (all 38 encodings with y>=p), s_high (canonical S in the sliver [2^252, L), built from a small-order A and R=[S]B+T', with structured limbs, and S just at/above L), undecodable A/R, length (signature lengths 0..70), random, and sequence (2..6 consecutive calls on the related keys A and -A, which differ in the sign bit only, with signatures of either, torsion-shifted keys and undecodable R in between: every verdict must equal the predicate of that call alone; the inputs of a sequence are passed in buffers that are overwritten in place between the calls, and some steps first call Sign with a well-formed or a mismatched (seed of one key, public half of another) private key and verify the result). " +
+		Rule: "(public key, message, signature) triples in classes: honest (crypto/ed25519 signatures, message length 0..2500 and around 2^9..2^13), bitflip (1-2 flipped bits), s_plus_jL (S+jL for every j with S+jL < 2^256), torsion (A=[s]B+T, R=[r]B+T' for all 8x8 torsion pairs, S=r+k*s with k over the bytes as given, and the same with S perturbed), smallorder (every encoding of every small-order point incl. non-canonical ones as A and as R, with S=0, S=k*s, S=jL, S=1), noncanonical_y (all 38 encodings with y>=p), s_high (canonical S in the sliver [2^252, L), built from a small-order A and R=[S]B+T', with structured limbs, and S just at/above L), s_limbs (S over the whole 256-bit range built from 64/32/16/8-bit chunks that are 0, 1, all-ones, half-range, the order's chunk, next to it, or the order's chunk plus half the range; small-order A and R=[S mod L]B+T', so that S<L alone decides), undecodable A/R, length (signature lengths 0..70), random, and sequence (2..6 consecutive calls on the related keys A and -A, which differ in the sign bit only, with signatures of either, torsion-shifted keys and undecodable R in between: every verdict must equal the predicate of that call alone; the inputs of a sequence are passed in buffers that are overwritten in place between the calls, and some steps first call Sign with a well-formed or a mismatched (seed of one key, public half of another) private key and verify the result). " +
 			"Every Verify call is judged two-sidedly against the big-integer ZIP-215 model and one-sidedly against crypto/ed25519 (std accept => accept). Non-trivial: every distinct triple outside class random.",
 		Assumptions: []string{"SHA-512 of the Go standard library", "math/big", "the ZIP-215 model in harness/oracle/ed (self-tested against RFC 8032 vectors, crypto/ed25519 and the known small-order encodings)"},
 		SelfTest:    ed.SelfTest,
 		Gen:         gen,
 		Judge:       judge,
 		Render:      render,
-		Required:    []string{"s_high model=accept", "s_high model=reject", "sequence: sign-then-verify steps", "model=accept impl=accept", "model=reject impl=reject", "std=accept", "sequence step model=accept", "sequence step model=reject"},
+		Required:    []string{"s_limbs model=accept", "s_limbs model=reject", "s_high model=accept", "s_high model=reject", "sequence: sign-then-verify steps", "model=accept impl=accept", "model=reject impl=reject", "std=accept", "sequence step model=accept", "sequence step model=reject"},
 	})
 }
 
@@ -132,6 +132,14 @@ func randMsg(g *fw.Gen) []byte {
 func randScalar(g *fw.Gen) *big.Int {
 	s := ed.LE(g.Bytes(40))
 	return s.Mod(s, ed.L)
+}
+
+func rev(b []byte) []byte {
+	r := make([]byte, len(b))
+	for i := range b {
+		r[len(b)-1-i] = b[i]
+	}
+	return r
 }
 
 func sigOf(R []byte, s *big.Int) []byte {
@@ -310,6 +318,58 @@ func gen(g *fw.Gen) {
 			A := smallEnc[g.Rng.Intn(len(smallEnc))]
 			R := ed.BaseMul(new(big.Int).Mod(S, ed.L)).Add(tors[g.Rng.Intn(8)]).Encode()
 			emit(g, "s_high", A, randMsg(g), sigOf(R, S))
+		}
+	}
+
+	// S with structured limbs over the whole 256-bit range (a hand-written "is S below the order" compares
+	// limbs or bytes): every chunk of width 64/32/16/8 bits is 0, 1, all-ones, the half-way value, the
+	// corresponding chunk of the order (or next to it), or random. With a small-order A and R = [S mod L]B + T'
+	// the cofactored equation holds for every S, so the verdict is decided by S < L alone.
+	{
+		lle := ed.ToLE(ed.L, 32)
+		for n := g.ShareOf(1200, 60000); n > 0; n-- {
+			wbytes := []int{8, 4, 2, 1}[g.Rng.Intn(4)]
+			sb := make([]byte, 32)
+			for c := 0; c < 32; c += wbytes {
+				chunk := sb[c : c+wbytes]
+				lchunk := new(big.Int).SetBytes(rev(lle[c : c+wbytes]))
+				var v *big.Int
+				max := new(big.Int).Lsh(big.NewInt(1), uint(8*wbytes))
+				switch g.Rng.Intn(10) {
+				case 0:
+					v = big.NewInt(0)
+				case 1:
+					v = big.NewInt(1)
+				case 2:
+					v = new(big.Int).Sub(max, big.NewInt(1))
+				case 3:
+					v = new(big.Int).Rsh(max, 1)
+				case 4:
+					v = new(big.Int).Sub(new(big.Int).Rsh(max, 1), big.NewInt(1))
+				case 5, 6:
+					v = lchunk
+				case 7:
+					v = new(big.Int).Add(lchunk, big.NewInt(int64(g.Rng.Intn(3)-1)))
+				case 8: // the order's chunk plus half the range (wraps a signed difference)
+					v = new(big.Int).Add(lchunk, new(big.Int).Rsh(max, 1))
+				default:
+					v = new(big.Int).SetBytes(g.Bytes(wbytes))
+				}
+				v.Mod(v.Add(v, max), max)
+				copy(chunk, ed.ToLE(v, wbytes))
+			}
+			switch g.Rng.Intn(4) {
+			case 0: // top byte as the order's: S in [2^252, 2^253)
+				sb[31] = 0x10
+			case 1:
+				sb[31] &= 0x0f
+			case 2:
+				sb[31] &= 0x1f
+			}
+			S := ed.LE(sb)
+			A := smallEnc[g.Rng.Intn(len(smallEnc))]
+			R := ed.BaseMul(new(big.Int).Mod(S, ed.L)).Add(tors[g.Rng.Intn(8)]).Encode()
+			emit(g, "s_limbs", A, randMsg(g), sigOf(R, S))
 		}
 	}
 
